@@ -124,8 +124,8 @@ def hostile(run, r, uniq, n_per_front, gen_layout, hostile_stream, split, classe
             if not answered:
                 why = 'after hostile bytes over real sockets a probe on a fresh connection was not answered correctly (got %s)' % out.hex()[:60]
             elif blocks is not None and after != before:
-                bad = unjustified_changes(framing, [data, data[:max(1, len(data) // 2)]], before, after, 1)
-                if bad and framing != 'tcp' and unjustified_changes(framing, [data], before, after, 1, loose=True):
+                bad = unjustified_changes(framing, [data, data[:max(1, len(data) // 2)]], before, after, 1, layout=layout)
+                if bad and framing != 'tcp' and unjustified_changes(framing, [data], before, after, 1, loose=True, layout=layout):
                     why = 'store changed without a justifying request: %r' % (bad[:3],)
                 elif bad and framing == 'tcp' and ADU.parse_stream('tcp', REQ, data)[2] is None:
                     why = 'store changed without a justifying request: %r' % (bad[:3],)
